@@ -93,9 +93,13 @@ def norm_case(case) -> dict:
     """fill in the fields added by later rounds so that every recorded line carries every field"""
     m = case["map"]
     m.setdefault("sort", 0)
+    m.setdefault("dsub", [])
     case.setdefault("au", True)
+    if case.get("bind") is not None:
+        case["bind"].setdefault("subnone", False)
     for r in m["rules"]:
         r.setdefault("dsegs", [])
+        r.setdefault("domnone", False)
         for s in r["segs"] + r["dsegs"]:
             s.setdefault("more", [])
             for c in [s["conv"]] + [v["conv"] for v in s["more"]]:
@@ -128,13 +132,15 @@ def mk_map(m):
         via = r.get("via", "plain")
         if m["host_matching"]:
             kw["host"] = dom
-        elif dom and via != "subdomain":
-            kw["subdomain"] = dom
+        elif r.get("domnone") and not r.get("dsegs"):
+            pass                        # subdomain=None: the rule lives on Map.default_subdomain
+        elif via != "subdomain" and (dom or txt(m.get("dsub", []))):
+            kw["subdomain"] = dom       # explicit, also when empty
         if via == "submount" and len(r["segs"]) > 1 and r["segs"][0]["k"] == "lit":
             f = Submount("/" + txt(r["segs"][0]["t"]), [Rule(rule_string(r, 1) or "/", **kw)])
         else:
             f = Rule(rule_string(r), **kw)
-        if via == "subdomain" and not m["host_matching"]:
+        if via == "subdomain" and not m["host_matching"] and not (r.get("domnone") and not r.get("dsegs")):
             f = Subdomain(dom, [f])
         facs.append(f)
     kw = {}
@@ -142,11 +148,28 @@ def mk_map(m):
         kw["sort_parameters"] = True
         if m["sort"] == 2:
             kw["sort_key"] = lambda kv: kv[1]
+    if txt(m.get("dsub", [])):
+        kw["default_subdomain"] = txt(m["dsub"])
     return Map(facs, host_matching=m["host_matching"], redirect_defaults=m["redirect_defaults"], **kw)
 
 
 def bind(mp, m, b):
-    return mp.bind(txt(b["server"]), txt(b["script"]), None if m["host_matching"] else (txt(b["sub"]) or None), txt(b["scheme"]))
+    if m["host_matching"] or b.get("subnone"):
+        sub = None
+    elif txt(m.get("dsub", [])):
+        sub = txt(b["sub"])             # explicit, also when empty: bind(subdomain="") is not bind(subdomain=None)
+    else:
+        sub = txt(b["sub"]) or None
+    return mp.bind(txt(b["server"]), txt(b["script"]), sub, txt(b["scheme"]))
+
+
+def configured_host(m, b) -> str:
+    """the host the application is configured to be served on (where a relative URL is requested): server_name
+    prefixed by the configured subdomain; judged against AdapterHost by the trace spec (HarnessDeliver)"""
+    if m["host_matching"]:
+        return txt(b["server"])
+    sub = txt(m.get("dsub", [])) if b.get("subnone") else txt(b["sub"])
+    return f"{sub}.{txt(b['server'])}" if sub else txt(b["server"])
 
 
 def observe_match(fn):
@@ -267,7 +290,7 @@ def run_case(case) -> list[dict]:
         line["exc"] = type(e).__name__
         return lines
     line["url"] = cps(url)
-    own = ad.get_host(None)
+    own = configured_host(m, b)
     host, raw, query, scheme, root = deliver(url, own, ad.script_name, txt(b["scheme"]))
     line["dhost"], line["dquery"] = cps(host), cps(query)
     if raw is None:
@@ -301,11 +324,11 @@ def run_case(case) -> list[dict]:
     if npaths and eobs["kind"] == "match":
         rng = random.Random(case.get("pseed", 0))
         if m["host_matching"]:
-            b2 = dict(b, server=cps(host), sub=[])
+            b2 = dict(b, server=cps(host), sub=[], subnone=False)
         else:
             srv = txt(b["server"])
             sub = host[: -len(srv) - 1] if host.endswith("." + srv) else ""
-            b2 = dict(b, sub=cps(sub))
+            b2 = dict(b, sub=cps(sub), subnone=False)
         try:
             ad2 = bind(mp, m, b2)
         except Exception:  # noqa: BLE001  -- the delivered host is not bindable: no neighbours to walk
@@ -323,7 +346,7 @@ def run_case(case) -> list[dict]:
                 ln["rb_exc"] = type(e).__name__
                 continue
             ln["rebuilt"] = cps(u2)
-            h2, raw2, _q2, sch2, _root = deliver(u2, ad2.get_host(None), ad2.script_name, txt(b["scheme"]))
+            h2, raw2, _q2, sch2, _root = deliver(u2, configured_host(m, b2), ad2.script_name, txt(b["scheme"]))
             if raw2 is None or sch2:
                 continue
             ln["under"] = True
@@ -736,6 +759,33 @@ def gen_defph_case(rng, seed):
             "ep": 1, "vals": vals, "ext": rng.random() < 0.2, "npaths": 4, "pseed": seed, "au": True}
 
 
+def gen_subdom_case(rng, seed):
+    """Map(default_subdomain=...) x rule subdomain None / "" / explicit x bind(subdomain=None / "" / "x" / the default):
+    None means the default, an explicitly empty subdomain stays empty."""
+    taken = []
+    hm = rng.random() < 0.1
+    dsub = rng.choice(["www", "www", "api", "m.eu", ""])
+    server = rng.choice(["example.com", "example.com:8080", "localhost"])
+    rules = []
+    for ep in range(1, rng.choice([2, 3, 4])):
+        segs = [_lit(_first(rng, taken))] + ([_var("x", gen_conv_g(rng))] if rng.random() < 0.6 else [])
+        o = rng.randrange(4)
+        dom, domnone = [("", True), ("", False), ("api", False), (dsub, False)][o]
+        if hm:
+            dom, domnone = rng.choice([server, "o.example"]), False
+        rules.append(dict(_rule(ep, segs, rng.random() < 0.4, dom=dom, via=rng.choice(["plain", "plain", "submount", "subdomain"])), domnone=domnone))
+    target = rng.choice(rules)
+    vals = [dict(gen_value_g(rng, sg["conv"]), name=sg["name"]) for sg in target["segs"][1:]]
+    o = rng.randrange(5)
+    sub, subnone = [("", True), ("", False), ("x", False), (dsub, False), ("api", False)][o]
+    if hm:
+        sub, subnone = "", True
+    m = {"rules": rules, "host_matching": hm, "redirect_defaults": True, "sort": 0, "dsub": cps("" if hm else dsub)}
+    b = {"server": cps(server), "script": cps(rng.choice(["/", "/app", "/app/"])), "sub": cps(sub), "subnone": subnone,
+         "scheme": cps(rng.choice(["http", "https"]))}
+    return {"map": m, "bind": b, "ep": target["ep"], "vals": vals, "ext": rng.random() < 0.3, "npaths": 3, "pseed": seed, "au": True}
+
+
 def gen_growth_case(rng, seed):
     k = seed % 4
     if k == 0:
@@ -753,6 +803,8 @@ def gen_case(seed: int) -> dict:
         return norm_case(gen_growth_case(rng, seed))
     if rng.random() < 0.15:
         return norm_case(gen_defph_case(rng, seed))
+    if rng.random() < 0.12:
+        return norm_case(gen_subdom_case(rng, seed))
     hm = rng.random() < 0.2
     server = rng.choice(["example.com", "example.com", "example.com:8080", "localhost"])
     subs = ["", "api", "www", "a.b"]
